@@ -21,6 +21,7 @@ def oracle(ctx):
     return cm.merge_results(cm.run_cases(_case, ctx["seed"], ID, n, sz), cm.run_cases(_case_fill, ctx["seed"], ID + "f", n // 4, sz),
                             cm.run_cases(fw.c15b_case, ctx["seed"], ID + "b", n, sz),
                             cm.run_cases(fw.c15b_window_case, ctx["seed"], ID + "w", n, sz),
+                            cm.run_cases(fw.c15b_exact_case, ctx["seed"], ID + "x", n, sz),
                             cm.run_cases(om.case_hexital_tfs, ctx["seed"], ID + "hx", n // 3, {**sz, "life": True, "pid": ID}))
 
 
